@@ -30,8 +30,8 @@ func (r *Rand) Range(lo, hi int) int {
 	return lo + r.Intn(hi-lo+1)
 }
 
-func (r *Rand) Float() float64 { return float64(r.U64()>>11) / float64(1<<53) }
-func (r *Rand) Bool() bool      { return r.U64()&1 == 1 }
+func (r *Rand) Float() float64   { return float64(r.U64()>>11) / float64(1<<53) }
+func (r *Rand) Bool() bool       { return r.U64()&1 == 1 }
 func (r *Rand) P(p float64) bool { return r.Float() < p }
 
 // Pick returns one of the strings.
@@ -50,7 +50,7 @@ func (r *Rand) Skewed(lo, hi int) int {
 }
 
 func mix(a, b uint64) uint64 {
-	x := a ^ (b+0x9e3779b97f4a7c15+(a<<6)+(a>>2))
+	x := a ^ (b + 0x9e3779b97f4a7c15 + (a << 6) + (a >> 2))
 	x ^= x >> 33
 	x *= 0xff51afd7ed558ccd
 	x ^= x >> 33
